@@ -155,6 +155,11 @@ func init() {
 		p.inputs = p.inputs[:len(p.inputs)-1]
 		iss := e.termsSlice([]*Term{e.tb.Const(8, 0x30), e.tb.Const(8, 1), e.sliceAt(ib, e.tb.I64(0))}, "issuer")
 		e.setField(cp, T, "RawIssuer", iss)
+		// the subject is a different name (certificates are issued by a CA; natively too)
+		sb := e.symBytes("cert."+name+".subject", e.tb.I64(1), 1)
+		p.inputs = p.inputs[:len(p.inputs)-1]
+		e.setField(cp, T, "RawSubject", e.termsSlice([]*Term{e.tb.Const(8, 0x30), e.tb.Const(8, 1), e.sliceAt(sb, e.tb.I64(0))}, "subject"))
+		e.Assume(e.tb.BNot(e.tb.Eq(e.sliceAt(sb, e.tb.I64(0)), e.sliceAt(ib, e.tb.I64(0)))))
 		ser := a[1].(SliceVal)
 		if !ser.Len.IsConst() {
 			e.unsupported("Cert: serial length must be concrete")
